@@ -38,6 +38,7 @@ func c03(c *core.Ctx) map[string]interface{} {
 	r3mask(c)
 	r3pure(c)
 	r3seqof(c)
+	r3octets(c)
 	return map[string]interface{}{"ngap_types": len(s.Types)}
 }
 
@@ -474,6 +475,9 @@ var rangeForm = regexp.MustCompile(`^\(\(p\d+-(p\d+|0)\)\+1\)$`)
 // (size range handed to appendLength/parseLength, offset subtracted from / added to
 // the count) must therefore be (-1, 0) or (range, *lowerBound).
 func r3strlen(c *core.Ctx) {
+	if !c.Once("r3strlen") {
+		return
+	}
 	const R = "R3.strlen"
 	c.Rule(R, "BIT/OCTET STRING length: n - lb only with a constrained size (ub < 64K); n itself with the general length determinant (encoder and decoder)")
 	for _, spec := range []struct {
@@ -488,6 +492,15 @@ func r3strlen(c *core.Ctx) {
 		{"perBitData.parseOctetString", "perBitData.parseLength", 2, false},
 	} {
 		fn := mustFunc(c, pAper, spec.fn)
+		if spec.encode {
+			count := "len(p1)"
+			if strings.HasSuffix(spec.fn, "appendBitString") {
+				count = "p2"
+			}
+			if r3strlenEncX(c, R, spec.fn, spec.lbPar, count) {
+				continue
+			}
+		}
 		p := core.NewPather(fn)
 		calls := core.CallsTo(fn, pAper+"."+spec.lenFn)
 		if len(calls) != 1 {
